@@ -286,7 +286,7 @@ func checkC05(r *Run) []Violation {
 				vs = append(vs, Violation{"C05", "handler-overlap", fmt.Sprintf("handler call %d overlapped another call", k), i})
 			}
 		}
-		if len(att.Causes) > 0 && att.Causes[0] == "cancel" && att.CauseSeq > 0 && !att.Plan.NoCancelCtx {
+		if len(att.Causes) > 0 && att.Causes[0] == "cancel" && att.CauseSeqSet && !att.Plan.NoCancelCtx {
 			// A cancelled Stream may still hand over what it was in the middle of, and
 			// a fair select may pick a ready event over the cancellation a few times
 			// (probability 1/2 or less per event) - not transaction after transaction
